@@ -43,7 +43,7 @@ def run(ctx):
         r09_5(ctx, a)
         r09_7(ctx, a)
         r09_8(ctx, a)
-        sites = [(blk, t) for blk, t in a.poll.built.calls() if wakers.is_poll_call(t) and not wakers.is_delegation(F, a.poll, t)]
+        sites = [(blk, t) for blk, t in a.poll.built.calls() if wakers.is_poll_call(t)] + [(blk, t) for blk, t, c in wakers.local_poll_helper_calls(F, a.poll)]
         wakers.check_poll_fn(ctx, "R14.1", a.poll, sites)
     r09_6(ctx, ads)
 
@@ -88,6 +88,13 @@ def r09_3(ctx, a):
     b = c.built
     applies = [(blk, t) for blk, t in b.calls(r"VectorDiff::<.*>::apply$") if mentions_field(b.expr_of_op(t["args"][1]), "buffered_vector") or True]
     tcalls = [(blk, t) for blk, t in b.calls() if F.local_callee(c, t) is a.translator]
+    if not tcalls:
+        # translator called from a nested closure: use the block where that closure is created
+        for nc in F.children.get(c.key, []):
+            if nc.built and any(F.local_callee(nc, t) is a.translator for _, t in nc.built.calls()):
+                for loc, s_ in b.iter_stmts():
+                    if s_["k"] == "assign" and s_["rv"]["k"] == "agg" and s_["rv"].get("def") == nc.path:
+                        tcalls.append((loc[0], None))
     ctx.call_sites += len(applies) + len(tcalls)
     if not applies:
         ctx.violated("R09.3", c, "replica-always-updated", c.loc(), "the per-diff closure of %s never applies the source diff to the replica" % a.name)
